@@ -55,7 +55,7 @@ Lemma omap_mono {A B} (f g : A -> option B) l r :
 Proof.
   revert r. induction l as [|x l IH]; intros r HF H; cbn in *; [exact H|].
   inversion HF as [|? ? Hx Hl]; subst.
-  destruct (f x) as [y|] eqn:E; [|discriminate]. rewrite (Hx _ E).
+  destruct (f x) as [y|] eqn:E; [|discriminate]. rewrite (Hx _ eq_refl).
   destruct (omap f l) as [ys|]; [|discriminate]. now rewrite (IH _ Hl eq_refl).
 Qed.
 
@@ -150,33 +150,35 @@ Lemma push_up_facts pp : forall own pd keep pd',
   (forall q, sfind q own <> None -> sfind q keep <> None \/ sfind q pd' <> None).
 Proof.
   induction own as [|[p u] r IH]; intros pd keep pd' H; cbn in H.
-  - inversion H; subst. split; [exists []; split; [now rewrite app_nil_r|intros ? []]|].
+  - injection H as <- <-. split; [exists []; split; [now rewrite app_nil_r|intros ? []]|].
     split; [intros ? []|]. intros q Hq. cbn in Hq. congruence.
   - destruct (sfind p pd) as [pu|] eqn:Ep.
     + destruct (push_up pp r pd) as [keep0 pd0] eqn:Er.
       destruct (IH _ _ _ Er) as [[ext [Hext Hinc]] [Hk Hq]].
-      assert (Hpd : pd' = pd0) by (destruct (str_eqb pu u); now inversion H). subst pd0.
+      assert (Hpd : pd0 = pd') by (destruct (str_eqb pu u); now inversion H).
+      assert (Hkp : keep = keep0 \/ keep = (p, u) :: keep0) by (destruct (str_eqb pu u); inversion H; auto).
+      rewrite Hpd in Hext, Hq. clear H Hpd Er.
       split; [exists ext; split; [exact Hext|intros z Hz; right; now apply Hinc]|].
       split.
-      * destruct (str_eqb pu u); inversion H; subst.
+      * destruct Hkp as [-> | ->].
         -- intros z Hz. right. now apply Hk.
         -- intros z [Hz|Hz]; [now left|right; now apply Hk].
       * intros q Hqo. cbn in Hqo. destruct (str_eqb q p) eqn:Eqp.
-        -- apply str_eqb_true in Eqp. subst q. right. rewrite Hext, sfind_app_l; rewrite Ep; discriminate.
+        -- apply str_eqb_true in Eqp. rewrite Eqp. right. rewrite Hext, sfind_app_l; rewrite Ep; discriminate.
         -- destruct (Hq q Hqo) as [H1|H1]; [|now right]. left.
-           destruct (str_eqb pu u); inversion H; subst; [exact H1|]. cbn. now rewrite Eqp.
-    + destruct (negb (opt_eqb str_eqb (Some p) pp)).
+           destruct Hkp as [-> | ->]; [exact H1|]. cbn. now rewrite Eqp.
+    + match type of H with (if ?c then _ else _) = _ => destruct c end.
       * destruct (IH _ _ _ H) as [[ext [Hext Hinc]] [Hk Hq]].
         split; [exists ((p, u) :: ext); split; [now rewrite Hext, <- app_assoc|]|].
         { intros z [Hz|Hz]; [now left|right; now apply Hinc]. }
         split; [intros z Hz; right; now apply Hk|].
         intros q Hqo. cbn in Hqo. destruct (str_eqb q p) eqn:Eqp.
-        -- apply str_eqb_true in Eqp. subst q. right. rewrite Hext. apply sfind_app_def. left.
+        -- apply str_eqb_true in Eqp. rewrite Eqp. right. rewrite Hext. apply sfind_app_def. left.
            apply sfind_app_def. right. cbn. rewrite str_eqb_refl. discriminate.
         -- exact (Hq q Hqo).
       * destruct (push_up pp r pd) as [keep0 pd0] eqn:Er.
-        destruct (IH _ _ _ Er) as [[ext [Hext Hinc]] [Hk Hq]]. inversion H; subst.
-        split; [exists ext; split; [reflexivity|intros z Hz; right; now apply Hinc]|].
+        destruct (IH _ _ _ Er) as [[ext [Hext Hinc]] [Hk Hq]]. injection H as <- <-.
+        split; [exists ext; split; [exact Hext|intros z Hz; right; now apply Hinc]|].
         split; [intros z [Hz|Hz]; [now left|right; now apply Hk]|].
         intros q Hqo. cbn in Hqo. cbn. destruct (str_eqb q p); [left; discriminate|exact (Hq q Hqo)].
 Qed.
@@ -185,7 +187,7 @@ Qed.
 Lemma all_decls_unfold p n x d a t ks :
   all_decls (EL p n x d a t ks) = d ++ flat_map all_decls ks.
 Proof.
-  cbn [all_decls]. f_equal. induction ks as [|k r IH]; [reflexivity|]. cbn [flat_map]. now rewrite IH.
+  reflexivity.
 Qed.
 
 Definition Q (e : elem) : Prop := incl (all_decls (promote_node e)) (all_decls e).
@@ -318,7 +320,8 @@ Proof.
     assert (Hk1 : erase ((xx, d) :: e1) (EL kp kn kx kd ka kt kks) = Some ik).
     { rewrite <- Ek. apply (Rk _ _ _ HkM Henv1 Henv1); [split; auto|exact Eek]. }
     rewrite erase_is_body in Hk1. rewrite erase_is_body.
-    rewrite (erase_body_mono _ _ _ _ _ _ _ _ _ Hk1); [reflexivity|].
+    assert (Hle2 : env_le ((kx, kd) :: (xx, d) :: e1) ((kx, keep) :: (xx, dfin ++ more) :: e2));
+      [|now rewrite (erase_body_mono _ _ _ _ _ _ _ _ Hle2 Hk1)].
     apply dom_le_env_le.
     + constructor; [exact HkdM|exact Henv1].
     + constructor; [intros z Hz; apply HkdM; now apply Hkeep|].
@@ -390,9 +393,6 @@ Proof.
   rewrite str_eqb_refl in H. cbn in H. now apply str_eqb_true in H.
 Qed.
 
-Definition no_xml_decl (e : elem) : bool :=
-  forallb (fun d => negb (str_eqb (fst d) s_xml)) (all_decls e).
-
 Lemma promote_preserves_infoset_l : forall root x,
   consistent root = true -> no_xml_decl root = true ->
   erase [] root = Some x -> erase [] (promote_node root) = Some x.
@@ -400,7 +400,7 @@ Proof.
   intros root x Hc Hx He.
   apply (promote_erase_l (all_decls root) (functional_b_spec _ Hc)) with (e1 := []).
   - intros u Hin. unfold no_xml_decl in Hx. rewrite forallb_forall in Hx. specialize (Hx _ Hin).
-    cbn in Hx. rewrite str_eqb_refl in Hx. discriminate.
+    cbn [fst] in Hx. rewrite str_eqb_refl in Hx. discriminate.
   - apply incl_refl.
   - constructor.
   - constructor.
